@@ -41,6 +41,11 @@ C = {
    "schedule decisions; after every step touching the read path the number of scenario files held open by the process (/proc/self/fd) is compared with the limit; "
    "liveness: non-cancelled sessions get all files; a second wave of held reads counts the usable slots (leak / double release).",
    "deterministic simulation: session/cancel histories x limiter-select schedules, step-wise counting invariant"),
+ "C14": ("exploration", "5 C14",
+   "Seeded histories and bursts of SSH connections of every kind (good/bad credentials, health, no channel, no shell, two shells, two channels, unknown request, resets at each "
+   "handshake stage) against a real dserver; a counting reference model (connections actually open on the simulated network) is compared with the server's own count and with "
+   "admission of probe logins while connections are held and after they ended; counter never negative at every 7th step.",
+   "deterministic simulation: connection histories with resets on a simulated network, counting reference model"),
 }
 
 checks = []
